@@ -151,7 +151,7 @@ static ssize_t vsrc_read(void *drv, void *p, size_t n)
         int r = which_region(p, &off);
         if (r != vs.dst_reg || off != vs.dst_start + vs.paypos)
             vs.misplaced = true;
-        if (r != vs.dst_reg || off < vs.dst_start || off > vs.dst_end || m > vs.dst_end - off)
+        if (r != vs.dst_reg || off > vs.dst_end || m > vs.dst_end - off)
             vs.past_dst = true;
         vs.paypos += m;
         return (ssize_t)m;
@@ -231,8 +231,14 @@ void harness(void)
     VP_INPUT(in);
     VP_ASSUME(in.kind < C13_NKINDS);
     VP_ASSUME(in.ep < EP_COUNT);
-#ifdef ONLY_EP_LO
-    VP_ASSUME(in.ep >= ONLY_EP_LO && in.ep <= ONLY_EP_HI);
+#ifdef EP
+    /* compile-time entry point: lets symbolic execution drop the other cases */
+    const unsigned ep = EP;
+#else
+    const unsigned ep = in.ep;
+#endif
+#ifdef KIND
+    VP_ASSUME(in.kind == KIND);
 #endif
     kindv = in.kind;
     kmax = c13_kind_max(kindv);
@@ -274,7 +280,7 @@ void harness(void)
         }
     }
 
-    switch (in.ep) {
+    switch (ep) {
     case EP_MEMORY_ENCODE: {
         LengthPrefixBuffer lpb;
         const int rc = flenp_memory_encode(k, &lpb, REG_BASE(REG_MEM), in.n);
@@ -300,7 +306,7 @@ void harness(void)
     case EP_BUFFER_ENCODE:
     case EP_BUFFER_ENCODE_N: {
         LengthPrefixBuffer lpb;
-        const bool isn = (in.ep == EP_BUFFER_ENCODE_N);
+        const bool isn = (ep == EP_BUFFER_ENCODE_N);
         if (isn)
             VP_ASSUME(in.n <= brest); /* "its first n unread octets" */
         const uint64_t total = isn ? in.n : brest;
@@ -364,7 +370,7 @@ void harness(void)
     }
     case EP_BUFFER_TO_SINK:
     case EP_BUFFER_TO_SINK_N: {
-        const bool isn = (in.ep == EP_BUFFER_TO_SINK_N);
+        const bool isn = (ep == EP_BUFFER_TO_SINK_N);
         if (isn)
             VP_ASSUME(in.n <= brest);
         const uint64_t total = isn ? in.n : brest;
@@ -400,7 +406,7 @@ void harness(void)
     }
     case EP_MEMORY_FROM_SOURCE:
     case EP_BUFFER_FROM_SOURCE: {
-        const bool isb = (in.ep == EP_BUFFER_FROM_SOURCE);
+        const bool isb = (ep == EP_BUFFER_FROM_SOURCE);
         const uint64_t L = in.n;
         VP_ASSUME(L >= 1 && L <= kmax);
         VP_ASSUME(in.cap <= (uint64_t)SSIZE_MAX);
